@@ -31,6 +31,11 @@ FLAVOURS = ["serial", "tcp", "aserial", "atcp", "mqtt", "amqtt"]
 def gen(rng, tier, index):
     cfg = netgen.base_cfg(rng, FLAVOURS, persistence=["pickle"])
     cfg["force_dirty"] = True
+    if rng.random() < 0.3:
+        # the order in which the loop, its executor threads (load, scheduled save) and the timer thread get to run at
+        # start-up and around a save is the scheduler's call, not always "first come first served"
+        cfg["sched"] = {"policy": "rw", "seed": rng.getrandbits(32), "p": rng.choice([0.0, 0.01, 0.05])}
+        cfg["max_steps"] = 1_500_000
     if rng.random() < 0.15:
         cfg["no_callback"] = True
     if cfg["flavour"] in ("mqtt", "amqtt"):
